@@ -266,7 +266,7 @@ def g_srp(rng):
     elif t == T.SELECT_BY_MAC_ADDRESS:
         data = rbytes(rng, 6)
     elif t == T.REQUEST_DIBS:
-        data = rbytes(rng, rng.choice([1, 2, 3, 4, 9, 252, 253, rng.randrange(1, 254)]))
+        data = rbytes(rng, rng.choice([1, 2, 3, 4, 9, 251, 252, rng.randrange(1, 253)]))
     else:
         data = ""
     return {"type": t.value, "mandatory": m, "data": data}
@@ -482,3 +482,158 @@ def frame_bytes(spec) -> bytes:
 
 def minimal_frame(rng=None) -> bytes:
     return bytes.fromhex("061005300006")
+
+
+# --------------------------------------------------------------------------
+# "field values the specification allows on the wire" — Python mirror of Body.wf (Model/KNXIP/WF.lean).
+# Hand-written twice on purpose: every C21 case prints py_wf(parsed body) next to the model's wf=…
+# --------------------------------------------------------------------------
+
+def _octets(b):
+    return isinstance(b, (bytes, bytearray))
+
+
+def _u(n, bits):
+    return isinstance(n, int) and not isinstance(n, bool) and 0 <= n < (1 << bits)
+
+
+def _ip_ok(s):
+    try:
+        return isinstance(s, str) and socket.inet_ntoa(socket.inet_aton(s)) == s
+    except OSError:
+        return False
+
+
+def _colonhex_ok(s, n):
+    try:
+        return isinstance(s, str) and bytes.fromhex(s.replace(":", "")).hex(":") == s and len(s) == 3 * n - 1
+    except ValueError:
+        return False
+
+
+def wf_hpai(h):
+    return isinstance(h.protocol, E.HostProtocol) and _ip_ok(h.ip_addr) and _u(h.port, 16)
+
+
+def wf_ia(a):
+    return isinstance(a, IndividualAddress) and _u(a.raw, 16)
+
+
+def wf_cri(c):
+    if not isinstance(c.connection_type, E.ConnectRequestType):
+        return False
+    if c.connection_type == E.ConnectRequestType.TUNNEL_CONNECTION:
+        return isinstance(c.knx_layer, E.TunnellingLayer) and (c.individual_address is None or wf_ia(c.individual_address))
+    return c.knx_layer == E.TunnellingLayer.DATA_LINK_LAYER and c.individual_address is None
+
+
+def wf_crd(c):
+    if not isinstance(c.request_type, E.ConnectRequestType):
+        return False
+    if c.request_type == E.ConnectRequestType.TUNNEL_CONNECTION:
+        return c.individual_address is not None and wf_ia(c.individual_address)
+    return c.individual_address is None
+
+
+def wf_dib(d):
+    if isinstance(d, D.DIBGeneric):
+        return (isinstance(d.dtc, E.DIBTypeCode) and d.dtc in GENERIC_DTCS and _octets(d.data)
+                and len(d.data) % 2 == 0 and len(d.data) + 2 <= 255)
+    if isinstance(d, D.DIBDeviceInformation):
+        try:
+            nm = d.name.encode("latin_1")
+        except (UnicodeEncodeError, AttributeError):
+            return False
+        return (isinstance(d.knx_medium, E.KNXMedium) and isinstance(d.programming_mode, bool)
+                and wf_ia(d.individual_address)
+                and _u(d.project_number, 12) and _u(d.installation_number, 4) and _colonhex_ok(d.serial_number, 6)
+                and _ip_ok(d.multicast_address) and _colonhex_ok(d.mac_address, 6) and len(nm) <= 30
+                and not nm.endswith(b"\0"))
+    if isinstance(d, (D.DIBSuppSVCFamilies, D.DIBSecuredServiceFamilies)):
+        return (all(isinstance(f.name, E.DIBServiceFamily) and _u(f.version, 8) for f in d.families)
+                and len(d.families) * 2 + 2 <= 255)
+    if isinstance(d, D.DIBTunnelingInfo):
+        return (_u(d.max_apdu_length, 16) and all(wf_ia(a) for a in d.slots)
+                and all(all(isinstance(x, bool) for x in s) for s in d.slots.values())
+                and len(d.slots) * 4 + 4 <= 255)
+    return False
+
+
+def wf_srp(s):
+    T = E.SearchRequestParameterType
+    if not (isinstance(s.type, T) and s.type.value < 8 and _octets(s.data) and isinstance(s.mandatory, bool)):
+        return False
+    if s.payload_size > 255 or s.payload_size != 2 + len(s.data):
+        return False
+    if s.type == T.SELECT_BY_SERVICE:
+        return len(s.data) == 2
+    if s.type == T.SELECT_BY_MAC_ADDRESS:
+        return len(s.data) == 6
+    if s.type == T.REQUEST_DIBS:
+        return len(s.data) > 0 and len(s.data) % 2 == 0
+    return len(s.data) == 0
+
+
+def _blen(b, n):
+    return _octets(b) and len(b) == n
+
+
+def py_wf(b) -> bool:
+    n = type(b).__name__
+    ec = lambda v: isinstance(v, ErrorCode)  # noqa: E731
+    if n in ("SearchRequest",):
+        ok = wf_hpai(b.discovery_endpoint)
+    elif n == "SearchRequestExtended":
+        ok = wf_hpai(b.discovery_endpoint) and all(wf_srp(s) for s in b.srps)
+    elif n in ("SearchResponse", "SearchResponseExtended"):
+        ok = wf_hpai(b.control_endpoint) and all(wf_dib(d) for d in b.dibs)
+    elif n == "DescriptionRequest":
+        ok = wf_hpai(b.control_endpoint)
+    elif n == "DescriptionResponse":
+        ok = all(wf_dib(d) for d in b.dibs)
+    elif n == "ConnectRequest":
+        ok = wf_hpai(b.control_endpoint) and wf_hpai(b.data_endpoint) and wf_cri(b.cri)
+    elif n == "ConnectResponse":
+        ok = _u(b.communication_channel, 8) and ec(b.status_code) and wf_hpai(b.data_endpoint) and wf_crd(b.crd)
+    elif n in ("ConnectionStateRequest", "DisconnectRequest"):
+        ok = _u(b.communication_channel_id, 8) and wf_hpai(b.control_endpoint)
+    elif n in ("ConnectionStateResponse", "DisconnectResponse"):
+        ok = _u(b.communication_channel_id, 8) and ec(b.status_code)
+    elif n in ("TunnellingRequest", "DeviceConfigurationRequest"):
+        ok = _u(b.communication_channel_id, 8) and _u(b.sequence_counter, 8) and _octets(b.raw_cemi)
+    elif n in ("TunnellingAck", "DeviceConfigurationAck"):
+        ok = _u(b.communication_channel_id, 8) and _u(b.sequence_counter, 8) and ec(b.status_code)
+    elif n in ("TunnellingFeatureGet", "TunnellingFeatureSet", "TunnellingFeatureInfo"):
+        ok = (_u(b.communication_channel_id, 8) and _u(b.sequence_counter, 8) and ec(b.status_code)
+              and isinstance(b.feature_type, E.TunnellingFeatureType) and _octets(b.data)
+              and (len(b.data) == 0 if n == "TunnellingFeatureGet" else (len(b.data) > 0 and len(b.data) % 2 == 0)))
+    elif n == "TunnellingFeatureResponse":
+        ok = (_u(b.communication_channel_id, 8) and _u(b.sequence_counter, 8) and ec(b.status_code)
+              and isinstance(b.feature_type, E.TunnellingFeatureType) and isinstance(b.return_code, ReturnCode)
+              and _octets(b.data) and len(b.data) % 2 == 0
+              and (b.return_code != ReturnCode.E_SUCCESS or len(b.data) > 0))
+    elif n == "RoutingIndication":
+        ok = _octets(b.raw_cemi)
+    elif n == "RoutingLostMessage":
+        ok = _u(b.device_state, 8) and _u(b.lost_messages, 16)
+    elif n == "RoutingBusy":
+        ok = _u(b.device_state, 8) and _u(b.wait_time, 16) and _u(b.control_field, 16)
+    elif n == "SecureWrapper":
+        ok = (_u(b.secure_session_id, 16) and _blen(b.sequence_information, 6) and _blen(b.serial_number, 6)
+              and _blen(b.message_tag, 2) and _octets(b.encrypted_data) and len(b.encrypted_data) >= 2
+              and _blen(b.message_authentication_code, 16))
+    elif n == "SessionRequest":
+        ok = wf_hpai(b.control_endpoint) and _blen(b.ecdh_client_public_key, 32)
+    elif n == "SessionResponse":
+        ok = (_u(b.secure_session_id, 16) and _blen(b.ecdh_server_public_key, 32)
+              and _blen(b.message_authentication_code, 16))
+    elif n == "SessionAuthenticate":
+        ok = _u(b.user_id, 8) and _blen(b.message_authentication_code, 16)
+    elif n == "SessionStatus":
+        ok = isinstance(b.status, E.SecureSessionStatusCode)
+    elif n == "TimerNotify":
+        ok = (_u(b.timer_value, 48) and _blen(b.serial_number, 6) and _blen(b.message_tag, 2)
+              and _blen(b.message_authentication_code, 16))
+    else:
+        return False
+    return bool(ok) and 6 + b.calculated_length() < 65536
